@@ -844,6 +844,8 @@ pub fn run_e2(ctx: &Ctx) -> i32 {
             AsyncPlan { sort_cb: SortCallback::None, hint_mask: None, mask: K_CANDS | K_DEPS, pairs: true, hint: None, complete_cap: 300, dev_bound: 1, dev_cap: 300 },
             // hints on every second package only
             AsyncPlan { sort_cb: SortCallback::None, hint_mask: Some(0b10101), mask: K_CANDS | K_DEPS, pairs: false, hint: None, complete_cap: 300, dev_bound: 1, dev_cap: 300 },
+            // filter_candidates and sort_candidates suspend as well
+            AsyncPlan { sort_cb: SortCallback::None, hint_mask: None, mask: K_CANDS | K_DEPS | K_FILTER | K_SORT, pairs: false, hint: None, complete_cap: 300, dev_bound: 1, dev_cap: 300 },
         ]
     } else {
         vec![
